@@ -43,14 +43,18 @@ def evaluate(d, props, runs):
 def main():
     args = sys.argv[1:]
     def opt(n, d=None):
-        return args[args.index(n) + 1] if n in args else d
+        if n in args:
+            i = args.index(n)
+            return args[i + 1] if i + 1 < len(args) and not args[i + 1].startswith("--") else ""
+        return d
     runs = {}
     if opt("--runs"):
         runs = {p: int(opt("--runs")) for p in ALL}
     if args[0] == "eval":
         dirs = [args[1]]
     else:
-        dirs = sorted(os.path.join(VERIF, "seeded", x) for x in os.listdir(os.path.join(VERIF, "seeded")) if os.path.isdir(os.path.join(VERIF, "seeded", x)))
+        base = opt("--dir", os.path.join(VERIF, "seeded"))
+        dirs = sorted(os.path.join(base, x) for x in os.listdir(base) if os.path.isdir(os.path.join(base, x)))
     props = opt("--props").split(",") if opt("--props") else None
     path = os.path.join(VERIF, "selftest", "mutation_matrix.json")
     matrix = json.load(open(path)) if os.path.exists(path) else {}
@@ -58,7 +62,7 @@ def main():
         meta = {}
         if os.path.exists(os.path.join(d, "meta.json")):
             meta = json.load(open(os.path.join(d, "meta.json")))
-        ps = props or meta.get("run_checks") or ALL
+        ps = props or meta.get("run_checks") or ([meta["property"]] if opt("--own") is not None and meta.get("property") else ALL)
         print("== %s (breaks %s) checks %s" % (d, meta.get("property"), ps), flush=True)
         res = evaluate(d, ps, runs)
         if res is None:
